@@ -568,6 +568,12 @@ def install(lib):
       return VInt(z3.ToInt(v.t))      # exact for the integral-valued reals it is applied to (np.sum of ints, np.ceil)
     raise Unsupported('int(%r)' % (v,))
 
+  @ext('builtins.bool')
+  def _bool(cx, v=None):
+    if v is None:
+      return VBool(False)
+    return VBool(cx.ex.truth(v, cx.p))
+
   @ext('builtins.float', 'float(x): x for numbers; TypeError for None/sequences; ValueError for unparsable strings')
   def _float(cx, v):
     if isinstance(v, (VInt, VBool)):
